@@ -400,14 +400,12 @@ func init() {
 					// the writer is parked for longer than the callers are willing to wait (time-out 50 ms + 1 s): they return by their
 					// own deadline; the released writer then still finds the commands in its queue and must cope with callers that left
 					join()
-					held := make(chan struct{})
 					var once atomic.Bool
 					hold := func(c int) {
 						if c == t.idx && !once.Swap(true) {
-							select {
-							case <-held:
-							case <-time.After(3 * time.Second):
-							}
+							// released by the clock, not by the scenario: a release that waits for the callers would order the
+							// writer's next steps after theirs and hide unsynchronised accesses from the race detector (C18)
+							time.Sleep(1150 * time.Millisecond)
 						}
 					}
 					l.writeHold.Store(&hold)
@@ -416,10 +414,9 @@ func init() {
 					for i := 0; i < 3; i++ {
 						call(t, key, 50*time.Millisecond, &wg)
 					}
-					wg.Wait() // all three gave up (about 1.05 s)
-					close(held)
+					wg.Wait()                          // all three gave up (about 1.05 s)
+					time.Sleep(300 * time.Millisecond) // the writer wakes and works through the stale queue: writes, time-outs, nobody listening
 					l.writeHold.Store(nil)
-					time.Sleep(150 * time.Millisecond) // the writer works through the stale queue: writes, time-outs, nobody listening
 					t.close(false)
 				case "writer-holds-command-while-reader-tears-down", "command-routed-just-before-leave":
 					join()
